@@ -63,6 +63,17 @@ class Closure:
     def set(self, i, v):
         l = list(self.f); l[i] = v; return Closure(self.cty, l, self.parent)
     def __repr__(self): return 'Closure(%s,%r)' % (self.cty, self.f)
+class Coro(Closure):
+    """an `async` block / coroutine after the state-machine transform: captured upvars (f), the resume state (discriminant) and the locals
+    saved across suspension points, addressed as ((*c) as variant#N).i"""
+    __slots__ = ('state', 'saved')
+    def __init__(self, cty, caps, parent=None, state=0, saved=None): Closure.__init__(self, cty, caps, parent); self.state = state; self.saved = dict(saved or {})
+    def set(self, i, v):
+        l = list(self.f); l[i] = v; return Coro(self.cty, l, self.parent, self.state, self.saved)
+    def set_saved(self, key, v):
+        d = dict(self.saved); d[key] = v; return Coro(self.cty, self.f, self.parent, self.state, d)
+    def set_state(self, st): return Coro(self.cty, self.f, self.parent, st, self.saved)
+    def __repr__(self): return 'Coro(%s, state %d)' % (self.cty, self.state)
 class Opaque:
     __slots__ = ('tag',)
     def __init__(self, tag): self.tag = tag
@@ -178,6 +189,9 @@ class VM:
             elif k == 'i':
                 if isinstance(v, Seq): v = v.items[p[1]]
                 else: raise VMError('index %r of %r' % (p, v))
+            elif k == 'vf':
+                if not isinstance(v, Coro) or (p[1], p[2]) not in v.saved: raise VMError('coroutine local %r of %r not set' % (p, v))
+                v = v.saved[(p[1], p[2])]
             elif k == 'sub':
                 v = Seq(v.items[p[1]:p[2]])
             elif k == 'view':
@@ -198,6 +212,8 @@ class VM:
                 return v.set(p[1], upd(v.f[p[1]], path[1:]))
             if p[0] == 'i':
                 items = list(v.items); items[p[1]] = upd(items[p[1]], path[1:]); return Seq(items)
+            if p[0] == 'vf':
+                return v.set_saved((p[1], p[2]), upd(v.saved.get((p[1], p[2])), path[1:]))
             if p[0] == 'sub':
                 items = list(v.items); sub = upd(Seq(items[p[1]:p[2]]), path[1:]); items[p[1]:p[2]] = list(sub.items); return Seq(items)
             if p[0] == 'view':
@@ -208,7 +224,7 @@ class VM:
 
     def resolve(self, m, fid, place):
         """place -> (cell, path)"""
-        cell = (fid, place.local); path = []
+        cell = (fid, place.local); path = []; pend_variant = None
         for p in place.proj:
             k = p[0]
             if k == 'deref':
@@ -216,8 +232,11 @@ class VM:
                 if isinstance(r, Ref): cell, path = r.cell, list(r.path)
                 elif isinstance(r, SliceRef) and r.shape is None: cell, path = r.cell, list(r.path) + [('sub', r.start, r.start + r.count)]
                 else: raise VMError('deref of %r at %s' % (r, place))
-            elif k == 'field': path.append(('f', p[1]))
-            elif k == 'downcast': pass
+            elif k == 'field':
+                if pend_variant is not None: path.append(('vf', pend_variant, p[1])); pend_variant = None
+                else: path.append(('f', p[1]))
+            elif k == 'downcast':
+                pend_variant = int(p[1].split('#')[1]) if p[1].startswith('variant#') else None
             elif k == 'constindex':
                 idx = p[1]
                 if p[3]:
@@ -483,6 +502,7 @@ class VM:
         if k == 'discriminant':
             v = self.read_place(m, fid, rv[1])
             if isinstance(v, Enum): return v.idx
+            if isinstance(v, Coro): return v.state
             if isinstance(v, bool): return int(v)
             raise VMError('discriminant of %r' % (v,))
         if k == 'len':
@@ -784,6 +804,7 @@ class VM:
                     work.extend(reversed(succ)); break
                 if k == 'setdisc':
                     v = self.read_place(m, fid, st.a)
+                    if isinstance(v, Coro): self.write_place(m, fid, st.a, v.set_state(st.b)); continue
                     if isinstance(v, Enum):
                         names = self.enums.get(v.ty) or []
                         self.write_place(m, fid, st.a, Enum(st.b, names[st.b] if st.b < len(names) else '?', v.f, v.ty)); continue
@@ -808,6 +829,7 @@ class VM:
         """the MIR printer zips capture *names* with operands and drops operands when one variable is captured
         by several disjoint places (`out.0`, `out.1`): recover them from the assignments immediately before."""
         ops = list(st.b[3])
+        if st.b[2].startswith('{coroutine@'): return Coro(st.b[2], [self.operand(m, fid, o, fn) for o in ops], fn.name)
         cfn = self.mir.closure_of(st.b[2], fn.name)
         need = self.closure_captures(cfn)
         if need > len(ops):
@@ -828,6 +850,7 @@ class VM:
             if nums != list(range(nums[0], nums[0] + need)): raise Unmodelled('closure capture temporaries not consecutive: %s' % st.text)
             ops = [('move', Place(x, ())) for x in prev]
         vals = [self.operand(m, fid, o, fn) for o in ops]
+        if st.b[2].startswith('{coroutine@'): return Coro(st.b[2], vals, fn.name)
         return Closure(st.b[2], vals, fn.name)
 
     def _pop(self, m, fid):
